@@ -1232,6 +1232,19 @@ func (e *Env) evalCall(n SCall) Val {
 			}
 			gh := x.heapGet(e.st, "GH_hashed", "(Array Int String)")
 			return Val{T: Select(gh, Term{fmt.Sprintf("(ival %s)", h.T.S), "Int"}), Typ: types.Typ[types.String]}
+		case "untouched":
+			// untouched(p): nothing in this function (or the callees executed in place) appends onto a
+			// shortened view of the slice parameter p, which - capacity allowing - would overwrite
+			// bytes the caller still sees. (Element stores and copy() change the value of p itself
+			// and show in string(p) == old(string(p)).)
+			id, ok := n.Args[0].(SIdent)
+			if !ok {
+				return e.fail("untouched() needs a parameter name")
+			}
+			if t, ok := e.st.ghost["clobber:"+id.Name]; ok {
+				return Val{T: Not(t), Typ: boolT}
+			}
+			return Val{T: True, Typ: boolT}
 		case "unread":
 			// unread(rd): the bytes the io.Reader rd still holds (what reading it to the end yields)
 			v := e.eval(n.Args[0])
